@@ -258,6 +258,22 @@ theorem restricted_copy_tests_partial (S : Suite) (user : List (String × VLine)
       rw [allowed_nil S user v vm hvm] at hy
       cases hy
 
+/-- The same with a hypothesis that needs no witness: no test of the suite has an own `only` restriction on a vm
+of which `w` excludes a variant, and `w` leaves every such vm at least one variant. -/
+theorem restricted_copy_tests_unconstrained_partial (S : Suite) (user : List (String × VLine)) (sel : List RLine)
+    (w v : Worker) (hv : v.restr = [])
+    (h : ∀ vm ∈ S.variants.map Prod.fst, (∃ x ∈ allowed S user v vm, x ∉ allowed S user w vm) →
+      allowed S user w vm ≠ [] ∧ ∀ t ∈ S.tests, t.only.find? (fun e => e.1 == vm) = none)
+    (x : Name × Asg) :
+    x ∈ copyTests S user sel w ↔ x ∈ copyTests S user sel v ∧ asgOK (allowed S user w) x.2 = true := by
+  refine restricted_copy_tests_partial S user sel w v hv (fun vm => (allowed S user w vm).headD "") ?_ x
+  intro vm hvm hex t ht
+  obtain ⟨hne, hnone⟩ := h vm hvm hex
+  simp only [allowedFor, hnone t ht]
+  cases hl : allowed S user w vm with
+  | nil => exact absurd hl hne
+  | cons y ys => simp
+
 /-- Every node of the restricted copy is *needed*: reachable from a selected test composed with variants `w`
 allows, along edges of the **unrestricted** copy, through nodes on allowed variants only (no hypothesis). -/
 theorem restricted_copy_tests_needed (S : Suite) (user : List (String × VLine)) (sel : List RLine) (w v : Worker)
@@ -275,12 +291,12 @@ theorem restricted_copy_tests_needed (S : Suite) (user : List (String × VLine))
   · intro a h; exact (asgOK_iff _ _).mpr h
 
 /-- **The restricted copy, exactly** (every selection, user and worker restrictions; suites with unique test names
-and an acyclic producer relation, rank below the resolver's fuel): the (test, assignment) pairs instantiated for
+and an acyclic declared producer relation, `RankOK` as in C06/C07): the (test, assignment) pairs instantiated for
 the restricted worker `w` are the unrestricted copy *minus the excluded variants, minus what is then no longer
 needed*: the least set containing the selected tests composed with variants allowed for `w` and closed under
 "parent in the unrestricted copy whose every vm variant is allowed for `w`". -/
 theorem restricted_copy_tests (S : Suite) (user : List (String × VLine)) (sel : List RLine) (w v : Worker)
-    (hv : v.restr = []) (hun : UniqueNames S) (rk : Name → Nat) (hrk : RankOK S rk) (hb : RankBound S rk)
+    (hv : v.restr = []) (hun : UniqueNames S) (rk : Name → Nat) (hrk : RankOK S rk)
     (x : Name × Asg) :
     x ∈ copyTests S user sel w ↔
       Needed (fun x => ∃ t ∈ selected S sel, x.1 = t.name ∧ x.2 ∈ leafAsgs S (allowed S user v) t ∧
@@ -291,7 +307,8 @@ theorem restricted_copy_tests (S : Suite) (user : List (String × VLine)) (sel :
   · intro h
     have hsub := allowed_sub S user w v hv
     rw [copyTests_eq]
-    refine bare_of_needed S _ _ hsub hun rk hrk hb sel x (Needed.imp ?_ ?_ ?_ h)
+    obtain ⟨rk', hrk', hb⟩ := rank_bounded S rk hrk
+    refine bare_of_needed S _ _ hsub hun rk' hrk' hb sel x (Needed.imp ?_ ?_ ?_ h)
     · rintro y ⟨t, ht, hn, h1, h2⟩
       exact ⟨t, ht, hn, (leafAsgs_restrict S _ _ hsub t y.2).mpr ⟨h1, (asgOK_iff _ _).mp h2⟩⟩
     · intro y z h; exact (mem_copyParents S user sel v y z).mp h
@@ -312,7 +329,7 @@ assignment) pair `x` of the restricted copy (it is in the unrestricted copy too,
 the unrestricted copy filtered by "every vm variant is allowed for `w`".  (Plain equality of the parent sets is
 false: a producer on another vm loses the excluded variants, `restricted_copy_parents_filter_needed`.) -/
 theorem restricted_copy_parents (S : Suite) (user : List (String × VLine)) (sel : List RLine) (w v : Worker)
-    (hv : v.restr = []) (hun : UniqueNames S) (rk : Name → Nat) (hrk : RankOK S rk) (hb : RankBound S rk)
+    (hv : v.restr = []) (hun : UniqueNames S) (rk : Name → Nat) (hrk : RankOK S rk)
     (x : Name × Asg) (hx : x ∈ copyTests S user sel w) (y : Name × Asg) :
     y ∈ copyParents S user sel w x ↔
       y ∈ copyParents S user sel v x ∧ asgOK (allowed S user w) y.2 = true := by
@@ -321,7 +338,8 @@ theorem restricted_copy_parents (S : Suite) (user : List (String × VLine)) (sel
   · rintro ⟨h1, h2⟩
     rw [mem_copyParents, mem_bareParents_workerNodes] at h1 ⊢
     rw [copyTests_eq] at hx
-    exact PEdge_restrict_back S _ _ (allowed_sub S user w v hv) hun rk hrk hb sel x y hx h1 ((asgOK_iff _ _).mp h2)
+    obtain ⟨rk', hrk', hb⟩ := rank_bounded S rk hrk
+    exact PEdge_restrict_back S _ _ (allowed_sub S user w v hv) hun rk' hrk' hb sel x y hx h1 ((asgOK_iff _ _).mp h2)
 
 /-- the filter in `restricted_copy_parents` is needed: in `cx3`, `quick.d(vm1=A)` is in both copies; `m(A, Y)` is
 its parent in the unrestricted copy only (worker `onlyX`) -/
@@ -351,6 +369,11 @@ theorem restricted_copy_keys_differ :
 example : ∀ vm ∈ Demo.demo.variants.map Prod.fst,
     (∃ x ∈ allowed Demo.demo [] RDemo.free vm, x ∉ allowed Demo.demo [] RDemo.onlyA vm) →
       ∀ t ∈ Demo.demo.tests, (fun _ => "A") vm ∈ allowedFor (allowed Demo.demo [] RDemo.onlyA) t vm := by decide
+/-- … so does the witness-free hypothesis of `restricted_copy_tests_unconstrained_partial` … -/
+example : ∀ vm ∈ Demo.demo.variants.map Prod.fst,
+    (∃ x ∈ allowed Demo.demo [] RDemo.free vm, x ∉ allowed Demo.demo [] RDemo.onlyA vm) →
+      allowed Demo.demo [] RDemo.onlyA vm ≠ [] ∧
+        ∀ t ∈ Demo.demo.tests, t.only.find? (fun e => e.1 == vm) = none := by decide
 /-- … the restriction does exclude something (the premise of the hypothesis is met for vm1) … -/
 example : ∃ x ∈ allowed Demo.demo [] RDemo.free "vm1", x ∉ allowed Demo.demo [] RDemo.onlyA "vm1" := by decide
 /-- … so the restricted copy is the filtered unrestricted copy; concretely the leaf on `A` and its whole setup
@@ -364,10 +387,10 @@ example : (["quick", "t"], [("vm1", "A")]) ∈ copyTests Demo.demo [] RDemo.selL
     (["quick", "t"], [("vm1", "B")]) ∉ copyTests Demo.demo [] RDemo.selLeaves RDemo.onlyA := by
   refine ⟨by decide, by decide, by decide, by decide⟩
 /-- the suite hypotheses of `restricted_copy_tests` / `restricted_copy_parents` hold for the demo suite and `cx3` -/
-example : UniqueNames Demo.demo ∧ RankOK Demo.demo Demo.rk ∧ RankBound Demo.demo Demo.rk := by
-  unfold UniqueNames RankOK RankBound; refine ⟨by decide, by decide, by decide⟩
-example : UniqueNames RDemo.cx3 ∧ RankOK RDemo.cx3 RDemo.rk3 ∧ RankBound RDemo.cx3 RDemo.rk3 := by
-  unfold UniqueNames RankOK RankBound; refine ⟨by decide, by decide, by decide⟩
+example : UniqueNames Demo.demo ∧ RankOK Demo.demo Demo.rk := by
+  unfold UniqueNames RankOK; refine ⟨by decide, by decide⟩
+example : UniqueNames RDemo.cx3 ∧ RankOK RDemo.cx3 RDemo.rk3 := by
+  unfold UniqueNames RankOK; refine ⟨by decide, by decide⟩
 /-- a node present in both copies with a non-empty parent set: `d(A)` hangs under both members of the group `m` -/
 example : copyParents Demo.demo [] RDemo.selLeaves RDemo.onlyA (["internal", "d"], [("vm1", "A")]) =
     [(["internal", "m", "a"], [("vm1", "A")]), (["internal", "m", "b"], [("vm1", "A")])] := by decide
